@@ -150,8 +150,11 @@ func VerifC12Timer() {
 		go func() { fired = vapi.FireTimer(0) }()
 	}
 	vapi.Quiesce()
-	if st != nil && !st.isClosed() {
-		vapi.AssertKnown(!net.cs.IsClosed(), "C12-timeout-check-then-close", "C12: a multiplexed session does not close itself on its inactivity timer while it has an open stream")
+	// if OpenStream handed out a stream, it was registered before the timer's close swept the table: the session
+	// then closed itself although it had an open stream
+	vapi.AssertKnown(!(st != nil && net.cs.IsClosed()), "C12-timeout-check-then-close", "C12: a multiplexed session does not close itself on its inactivity timer while it has an open stream")
+	if st == nil {
+		vapi.Assert(net.cs.IsClosed(), "C12: OpenStream is refused only on a closed session")
 	}
 	_ = fired
 	vapi.Reach("timer-end")
